@@ -20,8 +20,8 @@ NAMES = {'root': 1, 'a': 2, 'b': 3, 'c': 4, 'item': 5, 'g': 6, 'h': 7, 'm': 8, '
 TYPES = {'xs:int': 11, 'xs:date': 12, 'xs:string': 13, 'xs:boolean': 14, 'complex': 20}
 
 
-def schema_xsd(ns):
-    tns = ' targetNamespace="%s" xmlns:t="%s" elementFormDefault="qualified"' % (NS, NS) if ns else ''
+def schema_xsd(ns, uri=NS):
+    tns = ' targetNamespace="%s" xmlns:t="%s" elementFormDefault="qualified"' % (uri, uri) if ns else ''
     p = 't:' if ns else ''
     return ('<xs:schema xmlns:xs="http://www.w3.org/2001/XMLSchema"%s>'
             '<xs:element name="item" type="xs:string"/>'                     # a global with the repeated local name
@@ -98,12 +98,12 @@ def nodes(n, a=()):
         yield from nodes(k, a + (i,))
 
 
-def render(n, ns, top=True, default_ns=False):
+def render(n, ns, top=True, default_ns=False, uri=NS):
     p = '' if (not ns or default_ns) else 't:'
     a = ''.join(' %s="%s"' % kv for kv in n['attrs'].items())
     if top and ns:
-        a = (' xmlns="%s"' % NS if default_ns else ' xmlns:t="%s"' % NS) + a
-    inner = (n['text'] or '') + ''.join(render(k, ns, False, default_ns) for k in n['kids'])
+        a = (' xmlns="%s"' % uri if default_ns else ' xmlns:t="%s"' % uri) + a
+    inner = (n['text'] or '') + ''.join(render(k, ns, False, default_ns, uri) for k in n['kids'])
     return '<%s%s%s>%s</%s%s>' % (p, n['tag'], a, inner, p, n['tag'])
 
 
@@ -172,14 +172,19 @@ _S = {}
 
 def subject(case):
     import xmlschema
-    key = (case['ns'], case['version'])
+    if case.get('second') is not None and not case.get('_inner'):
+        # the same prefixed paths first on a document of another namespace bound to the same prefix, in this process
+        subject(dict(case, doc=case['second'], uri='urn:p2', _inner=True,
+                     addrs=[list(a) for a, _n in nodes(case['second']) if a][:10]))
+    uri = case.get('uri', NS)
+    key = (case['ns'], case['version'], uri)
     if key not in _S:
         cls = xmlschema.XMLSchema11 if case['version'] == '1.1' else xmlschema.XMLSchema10
-        _S[key] = cls(schema_xsd(case['ns']))
+        _S[key] = cls(schema_xsd(case['ns'], uri))
     s = _S[key]
     doc, ns = case['doc'], case['ns']
-    xml = render(doc, ns, default_ns=case['default_ns'])
-    nsmap = {'': NS} if case['default_ns'] else ({'t': NS} if ns else {})
+    xml = render(doc, ns, default_ns=case['default_ns'], uri=uri)
+    nsmap = {'': uri} if case['default_ns'] else ({'t': uri} if ns else {})
     out = {'paths': []}
     conv = xmlschema.JsonMLConverter
     # declarations used during validation, by element identity
@@ -313,7 +318,7 @@ def gen(ctx):
             addrs = rng.sample(addrs, 12)
         ns = i % 2 == 1
         cases.append({'doc': doc, 'ns': ns, 'default_ns': ns and (i % 4 == 3), 'version': '1.1' if (i // 2) % 2 else '1.0',
-                      'addrs': addrs})
+                      'addrs': addrs, 'second': gen_doc(rng) if ns and i % 4 == 1 else None})
     return cases
 
 
